@@ -30,57 +30,10 @@ def prop_of(sig):
                                "disconnected-before-drain", "empty-after-all-senders-gone")): return "C04"
     return "?"
 
-# (id, property, regex, witness file, what)
-KNOWN = [
- ("F1", "C01", r"^rdv_\w+:(try_send|send):ok-value-never-received:timed-recv-cancel-race$",
-  "findings/C01_F1_rdv_timed_recv_cancel_race.case",
-  "rendezvous cancel_receiver CASes WAITING->CANCELLED before taking the lock; a sender that pops the record in between is told Ok, the timed receiver returns Timeout and drops the value (Lean: C01_fails_F1)"),
- ("F3-conversion", "C04", r"-after-conversion$",
-  "findings/C04_F3_conversion_resets_closed.case",
-  "to_async/to_sync rebuild the handle with closed=false (spsc, mpmc bounded, rendezvous, spmc): the closed handle works again and its drop decrements the count a second time (Lean: C04_fails_F3_conversion_*)"),
- ("F3-clone", "C04", r"-after-clone-of-closed-handle$",
-  "findings/C04_F3_conversion_resets_closed.case",
-  "clone() of a handle whose close() already ran yields an open handle and re-increments the count: the channel is re-opened after Disconnected/Closed was observed"),
- ("F3-mpmc-async", "C04", r"^mpmc_b_async:\w+:closed-handle-(accepted|blocks)$|-after-closed-handle-accepted$",
-  "findings/C04_F3_mpmc_async_futures_ignore_closed.case",
-  "mpmc bounded async send/recv futures never read the handle's closed flag (Lean: C04_fails_F3_mpmc_async_*)"),
- ("F3-rdv-async", "C04", r"^rdv_\w+_async:(send|recv)(_fut)?:closed-handle-(accepted|blocks)$",
-  "findings/C04_F3_rdv_async_futures_ignore_closed.case",
-  "rendezvous async send/recv futures on a closed handle register and wait (or hand off) instead of returning Closed/Disconnected"),
- ("F17", "C04", r"^mpmc_b(_async)?:\w+:(disconnected-before-drain|value-after-disconnected|not-disconnected-after-disconnected)$",
-  "findings/C04_N1_mpmc_disconnected_before_drain.case",
-  "mpmc bounded: a parked receiver woken by the last sender's close returns Disconnected without re-checking the queue while a value is buffered (Lean: C04_fails_F17)"),
- ("OBS-oneshot", "C04", r"^oneshot:try_recv:(empty-after-all-senders-gone|not-disconnected-after-disconnected)$",
-  "findings/C04_OBS_oneshot_recv_after_taken.case",
-  "oneshot after the value was taken: try_recv reports Empty (state TAKEN) although every sender is gone"),
- ("SpmcB-N1", "C03", r"^spmc(_async)?:len:exceeds-capacity$",
-  "findings/SpmcB_stale_clone.case",
-  "spmc Receiver::clone of a closed (unregistered) receiver registers a cursor cell with the parent's stale cursor: head - min(cursor) exceeds the capacity (len() > capacity()), see SpmcB-N1 / C07"),
- ("SpmcB-N1", "C07", r"^spmc(_async)?:len:exceeds-capacity$",
-  "findings/SpmcB_stale_clone.case",
-  "spmc Receiver::clone of a closed receiver registers a stale cursor (SpmcB-N1)"),
- ("F14", "C05", r"^mpsc_b:\w+:blocked-with-space-available$",
-  "findings/C05_F14_mpsc_b_send_blocked_with_space.case",
-  "mpsc bounded v3 hoards freed credit: a parked sender is not woken by a recv that frees a slot"),
- ("F14", "C06", r"^mpsc_b_async:\w+:(blocked-with-space-available|pending-enabled-not-woken)$",
-  "findings/C06_F14_mpsc_b_async_send_fut_not_woken.case",
-  "mpsc bounded v3 (async): pending send future is not woken although a slot was freed"),
- ("F5", "C05", r"^mpmc_b:recv_timeout0:panic:",
-  "findings/C05_F5_mpmc_recv_timeout_unreachable.case",
-  "mpmc recv_timeout: unreachable!(\"state was finished but channel empty\") when a barging receiver took the item"),
- ("F18", "C05", r"^oneshot:recv:blocked-after-all-senders-gone$",
-  "findings/C04_OBS_oneshot_recv_after_taken.case",
-  "oneshot: a recv pending in state TAKEN is never woken when the last sender leaves"),
- ("F18", "C06", r"^oneshot:recv(_fut)?:(blocked-after-all-senders-gone|pending-enabled-not-woken)$",
-  "findings/C04_OBS_oneshot_recv_after_taken.case",
-  "oneshot: a recv future pending in state TAKEN is never woken when the last sender leaves"),
- ("F2", "C06", r":pending-enabled-not-woken:after-woken-future-dropped$",
-  "findings/C06_F2_wake_one_swallowed_by_dropped_future.case",
-  "wake-one consumed by a future that is then dropped is not forwarded"),
- ("F1-future", "C06", r"^rdv_\w+_async:(try_send|send)(_fut)?:ok-value-never-received:dropped-recv-future-race$",
-  "findings/C06_F1_rdv_dropped_recv_future.case",
-  "rendezvous: a dropped pending RecvFuture is still served by a sender; the value is lost"),
-]
+# (id, property, regex, witness file, what): the open channel findings are listed in /verif/known_findings.json
+# (entries with a `signature_regex`: chanh signatures carry flavour and API form, so one defect has several spellings)
+KNOWN = [(f.get("id", "?"), f["property"], f["signature_regex"], f.get("witness", ""), f.get("what", ""))
+         for f in json.load(open(os.path.join(VERIF, "known_findings.json")))["open"] if f.get("signature_regex")]
 
 def classify(ctx, tie):
     """Keep the monitor failures of this property; turn those matching a known family into known findings."""
